@@ -129,11 +129,65 @@ pub fn binary(a: &BigUint, bb: &BigUint, st: &mut Stats) -> Result<(), String> {
   let mut t = fa;
   t += &fb;
   check_eq("a+=&b", &t, &addm(a, bb), &ctx)?;
+  // sqrt_ratio / sqrt_alt, per the contract in the ff::Field documentation
+  {
+    let (flag, r) = Fp::sqrt_ratio(&fa, &fb);
+    let flag = bool::from(flag);
+    let rb = fe_to_big(&r);
+    let g = fe_to_big(&Fp::ROOT_OF_UNITY);
+    let verdict = if a.is_zero() {
+      flag && rb.is_zero()
+    } else if bb.is_zero() {
+      !flag && rb.is_zero()
+    } else {
+      let q = mulm(a, &invm(bb).unwrap());
+      if is_qr(&q) {
+        flag && mulm(&rb, &rb) == q
+      } else {
+        !flag && mulm(&rb, &rb) == mulm(&g, &q)
+      }
+    };
+    if !verdict {
+      return Err(format!("sqrt_ratio(num, div) breaks its documented contract: returned ({flag}, {rb}) ({ctx}; num = a, div = b)"));
+    }
+    let (f2, r2) = fa.sqrt_alt();
+    let (f3, r3) = Fp::sqrt_ratio(&fa, &Fp::ONE);
+    if bool::from(f2) != bool::from(f3) || mulm(&fe_to_big(&r2), &fe_to_big(&r2)) != mulm(&fe_to_big(&r3), &fe_to_big(&r3)) {
+      return Err(format!("sqrt_alt(a) disagrees with sqrt_ratio(a, 1) ({ctx})"));
+    }
+  }
+  // remaining operator forms and the trait-provided entry points
+  check_eq("a-&b", &(fa - &fb), &subm(a, bb), &ctx)?;
+  let mut t = fa;
+  t -= &fb;
+  check_eq("a-=&b", &t, &subm(a, bb), &ctx)?;
+  let mut t = fa;
+  t *= &fb;
+  check_eq("a*=&b", &t, &mulm(a, bb), &ctx)?;
+  {
+    use std::iter::{Product, Sum};
+    let three = [fa, fb, fa];
+    check_eq("sum of [a,b,a]", &Fp::sum(three.iter()), &addm(&addm(a, bb), a), &ctx)?;
+    check_eq("sum of [a,b,a] (owned)", &Fp::sum(three.iter().copied()), &addm(&addm(a, bb), a), &ctx)?;
+    check_eq("product of [a,b,a]", &Fp::product(three.iter()), &mulm(&mulm(a, bb), a), &ctx)?;
+    check_eq("product of [a,b,a] (owned)", &Fp::product(three.iter().copied()), &mulm(&mulm(a, bb), a), &ctx)?;
+    let none: [Fp; 0] = [];
+    check_eq("empty sum", &Fp::sum(none.iter()), &BigUint::zero(), &ctx)?;
+    check_eq("empty product", &Fp::product(none.iter()), &BigUint::one(), &ctx)?;
+  }
+  {
+    use ff::derive::subtle::{self, ConditionallySelectable, ConstantTimeEq};
+    if bool::from(fa.ct_eq(&fb)) != (a == bb) {
+      return Err(format!("ct_eq disagrees with integer equality ({ctx})"));
+    }
+    check_eq("conditional_select(a,b,0)", &Fp::conditional_select(&fa, &fb, subtle::Choice::from(0)), a, &ctx)?;
+    check_eq("conditional_select(a,b,1)", &Fp::conditional_select(&fa, &fb, subtle::Choice::from(1)), bb, &ctx)?;
+  }
   // equality agrees with integer equality
   if (fa == fb) != (a == bb) {
     return Err(format!("== disagrees with integer equality ({ctx})"));
   }
-  st.evals(10);
+  st.evals(24);
   let sum = a + bb;
   let prod = a * bb;
   if near_boundary(a) || near_boundary(bb) || near_boundary(&addm(a, bb)) || near_boundary(&mulm(a, bb)) || sum >= p() || prod.bits() > 128 {
@@ -185,13 +239,21 @@ pub fn unary(a: &BigUint, exps: &[BigUint], st: &mut Stats) -> Result<(), String
     check_eq("pow", &fa.pow(l), &powm(a, e), &format!("{ctx} e={e}"))?;
     check_eq("pow_vartime", &fa.pow_vartime(l), &powm(a, e), &format!("{ctx} e={e}"))?;
   }
-  if fa.is_zero_vartime() != a.is_zero() {
+  if fa.is_zero_vartime() != a.is_zero() || bool::from(fa.is_zero()) != a.is_zero() {
     return Err(format!("is_zero wrong ({ctx})"));
+  }
+  check_eq("cube", &fa.cube(), &mulm(&mulm(a, a), a), &ctx)?;
+  if bool::from(fa.is_even()) == bool::from(fa.is_odd()) {
+    return Err(format!("is_even and is_odd agree ({ctx})"));
+  }
+  match Fp::from_str_vartime(&a.to_string()) {
+    Some(f) => check_eq("from_str_vartime(decimal)", &f, a, &ctx)?,
+    None => return Err(format!("from_str_vartime refused the decimal form of an in-range integer ({ctx})")),
   }
   if bool::from(fa.is_odd()) != (a % 2u32 == BigUint::one()) {
     return Err(format!("is_odd disagrees with the integer's parity ({ctx})"));
   }
-  st.evals(6 + 2 * exps.len() as u64);
+  st.evals(10 + 2 * exps.len() as u64);
   if near_boundary(a) {
     st.nontrivial(&a.to_bytes_le());
   }
